@@ -1125,6 +1125,20 @@ fn gen_c13_plan(r: &mut Rng, kind: u16) -> Plan {
         kind: CmdKind::Ping,
         act: Act::None,
     });
+    if r.chance(1, 5) {
+        // "report, then hang up": the callback that reported the error returns an error of its
+        // own afterwards (a connection-fatal condition); the ERR was reported all the same
+        for c in cmds.iter_mut() {
+            if let Act::Program(pg) = &mut c.act {
+                let reports = matches!(pg.end, End::Error { .. })
+                    || pg.units.iter().any(|u| matches!(u, Unit::Rows(ru) if matches!(ru.close, Close::FinishError { .. })));
+                if reports && pg.ret_err.is_none() {
+                    pg.ret_err = Some((pg.units.len() as u32 + 1, 0xE300_0000 | r.below(1 << 20) as u32));
+                    break;
+                }
+            }
+        }
+    }
     let mut p = Plan::basic(cmds);
     if r.chance(1, 3) {
         // whatever the client announced about itself (character set, capabilities,
@@ -1173,6 +1187,7 @@ impl Check for C13 {
         let plan = gen_c13_plan(rng, kind);
         ctx.stats.bump("probe.kinds_visited_jobs", 1);
         ctx.eval(&plan);
+        super::props::tcp_share(&plan, job, ctx);
     }
     fn owns(&self, rule: &str) -> bool {
         ["err-packet", "resp-shape", "resp-malformed", "resp-missing", "api-call-failed", "panic", "end", "decode-myc"].contains(&rule)
